@@ -89,6 +89,7 @@ structure Hist where
   touched : Nat → List Nat
   hashOf : List (Nat × Nat) → Nat
   mtb : Nat := 0               -- MaxTraceableBlocks (only the state jump looks at it)
+  rub : Bool := false          -- RemoveUntraceableBlocks (the MPT counts references then; only Reset looks at it)
 
 def setItem (items : List (Nat × Nat)) (k : Nat) (v : Option Nat) : List (Nat × Nat) :=
   let r := items.filter (fun p => p.1 != k)
@@ -203,7 +204,7 @@ def run (H : Hist) (B : Nat) (ops : List Op) : Node × List Batch := runFrom H B
 
 inductive Err where
   | noHeaderPtr | noPage | noHeader (i : Nat) | badStage | noSyncPoint | noBlockPtr | noRoot
-  | noBlock (i : Nat) | badTarget | noVersion
+  | noBlock (i : Nat) | badTarget | noVersion | refused
   deriving DecidableEq, Repr
 
 /-- the walk of HeaderHashes.init (headerhashes.go:110-128) over records `lo … lo+n-1`: the first missing one. -/
@@ -377,6 +378,10 @@ point and the first marker form the first batch. -/
 def reset (H : Hist) (B S : Nat) (n : Node) (t : Nat) : Except Err (List Batch × Node) :=
   if t > n.height then .error .badTarget
   else if t = n.height ∧ n.hdrHeight = n.height then .ok ([], n)
+  -- blockchain.go:976-978 (since b08d698): the MPT nodes of state t that later blocks released are flagged inactive on
+  -- such a node and cannot be used again, so the reset is refused before anything is written. Only a FRESH call is
+  -- checked (stage none); `recover` resuming a recorded stage goes straight to `resetFrom`.
+  else if H.rub = true ∧ t < n.height then .error .refused
   else
     let b1 : Batch := ofWrites [(Key.syncPoint, some (Val.ptr t)), marker stJumpStarted]
     let d1 := applyBatch b1 n.db
